@@ -4,6 +4,7 @@ import json
 import os
 import re
 import shutil
+import sys
 import time
 from collections import Counter
 
@@ -19,18 +20,21 @@ FN_NAMES = {
     27: "checked::cast_ref", 28: "checked::cast_mut", 29: "checked::try_from_bytes",
     30: "checked::try_from_bytes_mut", 31: "checked::from_bytes", 32: "checked::from_bytes_mut",
     41: "must_cast_ref", 42: "must_cast_mut", 43: "must_cast_slice", 44: "must_cast_slice_mut",
-    45: "must_cast",
+    45: "must_cast", 15: "pod_align_to", 16: "pod_align_to_mut",
+    141: "must_cast_ref (compile verdict)", 142: "must_cast_mut (compile verdict)",
+    143: "must_cast_slice (compile verdict)", 144: "must_cast_slice_mut (compile verdict)",
+    145: "must_cast (compile verdict)", 200: "char::is_valid_bit_pattern (2^32 scan)",
     51: "try_cast", 52: "cast", 53: "try_pod_read_unaligned", 54: "pod_read_unaligned",
     61: "checked::try_cast", 62: "checked::cast", 63: "checked::try_pod_read_unaligned",
     64: "checked::pod_read_unaligned",
 }
 
-VIEW_FNS = set(range(1, 15)) | set(range(21, 33)) | {41, 42, 43, 44}
+VIEW_FNS = set(range(1, 17)) | set(range(21, 33)) | {41, 42, 43, 44}
 TRY_BORROWED = {1, 2, 5, 6, 9, 10, 21, 22, 25, 26, 29, 30}
 VALUE_FNS = {45, 51, 52, 53, 54, 61, 62, 63, 64}
 CHECKED_FNS = set(range(21, 33)) | {61, 62, 63, 64}
 PANICKING = {3, 4, 7, 8, 11, 12, 23, 24, 27, 28, 31, 32, 52, 54, 62, 64}
-MUST_FNS = {41, 42, 43, 44, 45}
+MUST_FNS = {41, 42, 43, 44, 45, 141, 142, 143, 144, 145}
 
 # property -> (functions whose correspondence it owns, predicate on a MON line (prop tag, fn, what))
 PROPS = {
@@ -38,7 +42,7 @@ PROPS = {
     "C02": (TRY_BORROWED, lambda tag, fn, what: tag == "C02" or (
         tag == "C01" and fn in TRY_BORROWED and what == "memory-outside-footprint-modified")),
     "C03": (VALUE_FNS, lambda tag, fn, what: tag == "C03"),
-    "C07": (CHECKED_FNS, lambda tag, fn, what: tag == "C07" or (
+    "C07": (CHECKED_FNS | {200}, lambda tag, fn, what: tag == "C07" or (
         tag == "C01" and fn in CHECKED_FNS and what == "memory-outside-footprint-modified")),
     "C11": (PANICKING, lambda tag, fn, what: tag == "C11"),
     "C14": (MUST_FNS, lambda tag, fn, what: tag == "C14" or (tag in ("C01", "C03") and fn in MUST_FNS)),
@@ -48,22 +52,142 @@ CFGS = {  # cfg bits as understood by Extract/Driver.v feat_of  ->  cargo featur
     0: [],
     1: ["align_offset"],
     3: ["align_offset", "track_caller"],
+    "must": ["mustrun"],
 }
+
+
+def must_verdicts(tier, cdir):
+    """Build the five mustgrid binaries; return (path of the verdict transcript, accepted-pairs file, error)."""
+    import re as _re
+    sys_path = os.path.join(VERIF, "harness", "mustgrid", "gen.py")
+    d = os.path.join(CACHE, "mustgrid-%s" % tier)
+    rc, out = sh(["python3", sys_path, d + ".new", tier])
+    if rc != 0:
+        return None, None, "mustgrid generator failed: " + out[-500:]
+    for root, _, files in os.walk(d + ".new"):
+        for fn in files:
+            src = os.path.join(root, fn)
+            dst = os.path.join(d, os.path.relpath(src, d + ".new"))
+            os.makedirs(os.path.dirname(dst), exist_ok=True)
+            new = open(src).read()
+            try:
+                old = open(dst).read()
+            except OSError:
+                old = None
+            if new != old:
+                with open(dst, "w") as f:
+                    f.write(new)
+    shutil.rmtree(d + ".new", ignore_errors=True)
+    shutil.copy(os.path.join(REPO, "Cargo.lock"), os.path.join(d, "Cargo.lock"))
+    sys.path.insert(0, os.path.join(VERIF, "harness", "castgrid"))
+    import gen as cg
+    types = cg.QUICK_TYPES if tier == "quick" else cg.all_types()
+    target = os.path.join(CACHE, "target-mustgrid-%s" % tier)
+    vpath = os.path.join(cdir, "must-verdict.txt")
+    apath = os.path.join(harness_dir(tier), "accepted-pairs.txt")
+    os.makedirs(harness_dir(tier), exist_ok=True)
+    t0 = time.time()
+    with open(vpath, "w") as vf, open(apath + ".new", "w") as af:
+        for fn in (141, 142, 143, 144, 145):
+            rc, out = sh(["cargo", "build", "--offline", "--bin", "m%d" % fn], cwd=d,
+                         env={"CARGO_TARGET_DIR": target}, timeout=1500)
+            rejected = set()
+            for m in _re.finditer(r"instantiating `fn (?:\w+::)*must_cast\w*::<(?:\w+::)*S(\d+)A(\d+), (?:\w+::)*S(\d+)A(\d+)>`", out):
+                rejected.add(tuple(int(x) for x in m.groups()))
+            nerr = _re.search(r"due to (\d+) previous error", out)
+            if rc != 0 and not rejected:
+                return None, None, "mustgrid m%d does not build: %s" % (fn, out[-1200:])
+            if rc == 0 and rejected:
+                return None, None, "mustgrid m%d: inconsistent build output" % fn
+            for (sa, aa) in types:
+                for (sb, ab) in types:
+                    ok = (sa, aa, sb, ab) not in rejected
+                    vf.write("%d 0 %d %d %d %d 0 0 0 - ; %s ; - ; 3\n" % (fn, sa, aa, sb, ab, "COMPILES" if ok else "CFAIL"))
+                    if ok:
+                        af.write("%d %d %d %d %d\n" % (fn, sa, aa, sb, ab))
+    new = open(apath + ".new").read()
+    try:
+        old = open(apath).read()
+    except OSError:
+        old = None
+    if new != old:
+        os.replace(apath + ".new", apath)
+    else:
+        os.remove(apath + ".new")
+    log("mustgrid %s: compile verdicts in %.1fs" % (tier, time.time() - t0))
+    return vpath, apath, None
+
+
+VALSCAN_MAIN = """use bytemuck::checked::CheckedBitPattern;
+fn main() {
+  // maximal intervals of u32 on which <char as CheckedBitPattern>::is_valid_bit_pattern is true
+  let mut start: Option<u32> = None;
+  let mut v: u32 = 0;
+  loop {
+    let ok = <char as CheckedBitPattern>::is_valid_bit_pattern(&v);
+    match (ok, start) {
+      (true, None) => start = Some(v),
+      (false, Some(s)) => { println!("CHARSCAN {} {}", s, v - 1); start = None; }
+      _ => {}
+    }
+    if v == u32::MAX { break; }
+    v += 1;
+  }
+  if let Some(s) = start { println!("CHARSCAN {} {}", s, u32::MAX); }
+}
+"""
+
+
+def valscan(cdir):
+    """All 2^32 bit patterns through char's validity predicate (release build, a few seconds)."""
+    d = os.path.join(CACHE, "valscan")
+    os.makedirs(os.path.join(d, "src"), exist_ok=True)
+    from common import write_if_changed
+    write_if_changed(os.path.join(d, "Cargo.toml"), """[package]
+name = "valscan"
+version = "0.1.0"
+edition = "2021"
+
+[workspace]
+
+[dependencies]
+bytemuck = { path = "/repo" }
+
+[profile.release]
+opt-level = 3
+debug = 0
+incremental = false
+""")
+    write_if_changed(os.path.join(d, "src", "main.rs"), VALSCAN_MAIN)
+    shutil.copy(os.path.join(REPO, "Cargo.lock"), os.path.join(d, "Cargo.lock"))
+    target = os.path.join(CACHE, "target-valscan")
+    rc, out = sh(["cargo", "build", "--offline", "--release"], cwd=d, env={"CARGO_TARGET_DIR": target}, timeout=900)
+    if rc != 0:
+        return None, "valscan does not build: " + out[-1200:]
+    rc, out = sh([os.path.join(target, "release", "valscan")], timeout=600)
+    if rc != 0:
+        return None, "valscan failed: " + out[-300:]
+    iv = [tuple(int(x) for x in l.split()[1:3]) for l in out.split("\n") if l.startswith("CHARSCAN ")]
+    with open(os.path.join(cdir, "charscan.txt"), "w") as f:
+        f.write(out)
+    return iv, None
 
 
 def harness_dir(tier):
     return os.path.join(CACHE, "castgrid-%s" % tier)
 
 
-def build_harness(tier, cfg):
+def build_harness(tier, cfg, pairs_file=None):
     """(Re)generate and build castgrid for a tier and feature set from /repo's working tree."""
     d = harness_dir(tier)
-    rc, out = sh(["python3", os.path.join(VERIF, "harness", "castgrid", "gen.py"), d + ".new", tier])
+    if pairs_file is None:
+        pairs_file = os.path.join(d, "accepted-pairs.txt")
+    rc, out = sh(["python3", os.path.join(VERIF, "harness", "castgrid", "gen.py"), d + ".new", tier, pairs_file])
     if rc != 0:
         raise RuntimeError("castgrid generator failed: " + out)
     # keep mtimes stable when nothing changed so cargo does not rebuild
     os.makedirs(os.path.join(d, "src"), exist_ok=True)
-    for rel in ("Cargo.toml", "src/main.rs", "src/types.rs"):
+    for rel in ("Cargo.toml", "src/main.rs", "src/types.rs", "src/mustpairs.rs"):
         new = open(os.path.join(d + ".new", rel)).read()
         try:
             old = open(os.path.join(d, rel)).read()
@@ -75,7 +199,7 @@ def build_harness(tier, cfg):
     shutil.rmtree(d + ".new", ignore_errors=True)
     shutil.copy(os.path.join(REPO, "Cargo.lock"), os.path.join(d, "Cargo.lock"))
     feats = CFGS[cfg]
-    target = os.path.join(CACHE, "target-castgrid-%s-%d" % (tier, cfg))
+    target = os.path.join(CACHE, "target-castgrid-%s-%s" % (tier, cfg))
     cmd = ["cargo", "build", "--offline"]
     if feats:
         cmd += ["--features", ",".join(feats)]
@@ -83,14 +207,14 @@ def build_harness(tier, cfg):
     rc, out = sh(cmd, cwd=d, env={"CARGO_TARGET_DIR": target}, timeout=1500)
     if rc != 0:
         return None, out
-    log("castgrid %s cfg=%d built in %.1fs" % (tier, cfg, time.time() - t0))
+    log("castgrid %s cfg=%s built in %.1fs" % (tier, cfg, time.time() - t0))
     return os.path.join(target, "debug", "castgrid"), out
 
 
 def transcripts(tier):
     """Build + run castgrid for the tier's feature sets; run the oracle over each transcript.
     Cached by the content hash of /repo and of the machinery.  Returns a dict."""
-    key = repo_hash()[:16] + "-" + machinery_hash(["harness/castgrid", "oracle", "coq/theories", "translator/src",
+    key = repo_hash()[:16] + "-" + machinery_hash(["harness/castgrid", "harness/mustgrid", "oracle", "coq/theories", "translator/src",
                                                    "tools/fam_cast.py"])[:16]
     cdir = os.path.join(CACHE, "transcripts", "cast-%s-%s" % (tier, key))
     done = os.path.join(cdir, "result.json")
@@ -104,6 +228,22 @@ def transcripts(tier):
     cfgs = [0, 1] if tier == "quick" else [0, 1, 3]
     maxlen = 6 if tier == "quick" else 12
     res = {"tier": tier, "key": key, "cfgs": {}, "oracle_error": oerr, "dir": cdir, "cached": False}
+    vpath, apath, verr = must_verdicts(tier, cdir)
+    res["must_error"] = verr
+    iv, serr = valscan(cdir)
+    res["charscan"] = iv
+    res["charscan_error"] = serr
+    if vpath:
+        entry = {"features": ["must_cast", "must_cast_extra"], "transcript": vpath, "run_rc": 0}
+        res["cfgs"]["must-verdict"] = entry
+        if oracle is not None:
+            opath = os.path.join(cdir, "oracle-must-verdict.txt")
+            with open(vpath) as fin, open(opath, "w") as fout:
+                import subprocess
+                p = subprocess.run([oracle], stdin=fin, stdout=fout, stderr=subprocess.PIPE, timeout=1500)
+                entry["oracle_rc"] = p.returncode
+            entry["oracle_out"] = opath
+        cfgs = cfgs + ["must"]
     for cfg in cfgs:
         exe, out = build_harness(tier, cfg)
         entry = {"features": CFGS[cfg]}
@@ -111,12 +251,13 @@ def transcripts(tier):
         if exe is None:
             entry["build_error"] = out[-3000:]
             continue
-        tpath = os.path.join(cdir, "cast-%d.txt" % cfg)
+        tpath = os.path.join(cdir, "cast-%s.txt" % cfg)
         t0 = time.time()
         with open(tpath, "w") as f:
             import subprocess
             try:
-                p = subprocess.run([exe, str(cfg), str(maxlen)], stdout=f, stderr=subprocess.PIPE, timeout=1500)
+                argv = [exe, "0", str(maxlen), "must"] if cfg == "must" else [exe, str(cfg), str(maxlen), "all"]
+                p = subprocess.run(argv, stdout=f, stderr=subprocess.PIPE, timeout=1500)
                 entry["run_rc"] = p.returncode
                 entry["run_stderr"] = p.stderr.decode("utf-8", "replace")[-1000:]
             except subprocess.TimeoutExpired:
@@ -125,7 +266,7 @@ def transcripts(tier):
         entry["transcript"] = tpath
         if oracle is None:
             continue
-        opath = os.path.join(cdir, "oracle-%d.txt" % cfg)
+        opath = os.path.join(cdir, "oracle-%s.txt" % cfg)
         with open(tpath) as fin, open(opath, "w") as fout:
             import subprocess
             p = subprocess.run([oracle], stdin=fin, stdout=fout, stderr=subprocess.PIPE, timeout=1500)
@@ -168,13 +309,36 @@ def findings(res, prop):
     mons, corrs = [], []
     stats = {"evaluations": 0, "by_fn": Counter(), "by_outcome": Counter(), "distinct": set(), "samples": [],
              "harness_errors": []}
-    for cfg, entry in sorted(res["cfgs"].items()):
+    stats["notes"] = []
+    if res.get("must_error"):
+        (stats["harness_errors"] if prop == "C14" else stats["notes"]).append("must stage: " + res["must_error"])
+    if res.get("charscan_error"):
+        (stats["harness_errors"] if prop == "C07" else stats["notes"]).append("char scan: " + res["charscan_error"])
+    if prop == "C07" and res.get("charscan") is not None:
+        want = [(0, 0xD7FF), (0xE000, 0x10FFFF)]
+        got = [tuple(x) for x in res["charscan"]]
+        stats["evaluations"] += 1 << 32
+        stats["by_fn"]["char::is_valid_bit_pattern (all 2^32 patterns)"] += 1 << 32
+        stats["distinct"].add(("charscan", str(got)))
+        if got != want:
+            # first bit pattern on which the predicate differs from the language's definition
+            def member(iv, v):
+                return any(lo <= v <= hi for lo, hi in iv)
+            cands = sorted(set([0] + [x for lo, hi in got + want for x in (lo - 1, lo, hi, hi + 1) if 0 <= x < (1 << 32)]))
+            bad = [v for v in cands if member(got, v) != member(want, v)]
+            mons.append({"fn": 200, "fn_name": FN_NAMES[200], "bits": bad[0] if bad else None, "bits_hex": hex(bad[0]) if bad else None,
+                         "accepted_intervals": got, "valid_intervals": want, "monitor": "C07",
+                         "clause_violated": "char-validity-differs-from-unicode-scalar-values",
+                         "observed": "is_valid_bit_pattern(&%s) = %s" % (hex(bad[0]) if bad else "?", member(got, bad[0]) if bad else "?")})
+    for cfg, entry in sorted(res["cfgs"].items(), key=lambda kv: str(kv[0])):
+        must_cfg = str(cfg).startswith("must")
         if "build_error" in entry:
-            stats["harness_errors"].append("castgrid cfg=%s does not build: %s" % (cfg, entry["build_error"][-600:]))
+            (stats["harness_errors"] if (prop == "C14" or not must_cfg) else stats["notes"]).append(
+                "castgrid cfg=%s does not build: %s" % (cfg, entry["build_error"][-600:]))
             continue
         if entry.get("run_rc", 0) != 0:
-            stats["harness_errors"].append("castgrid cfg=%s exited with %s: %s" % (
-                cfg, entry.get("run_rc"), entry.get("run_stderr", "")[-300:]))
+            (stats["harness_errors"] if (prop == "C14" or not must_cfg) else stats["notes"]).append(
+                "castgrid cfg=%s exited with %s: %s" % (cfg, entry.get("run_rc"), entry.get("run_stderr", "")[-300:]))
         tp = entry.get("transcript")
         if tp and os.path.exists(tp):
             with open(tp) as f:
